@@ -217,6 +217,49 @@ class Body:
             return ("agg", bi, si, n)
         return ("other", n)
 
+    def expr(self, operand, depth=0):
+        """Expression tree of an operand (def-use unfolded, depth-limited):
+          ('param', i) | ('const', value-or-string, type string) | ('bin', op, a, b) | ('un', op, a)
+          | ('cast', kind, to_type, a) | ('call', callee path, [args], [type args], resolved path)
+          | ('field', base, path) | ('agg', kind/name, [ops]) | ('multi', local) | ('?',)"""
+        if depth > 40:
+            return ("?",)
+        r = self.root(operand)
+        k = r[0]
+        if k == "param":
+            return ("param", r[1])
+        if k == "const":
+            c = r[1]
+            ty = self.F.ts(c["t"]) if "t" in c else "?"
+            return ("const", c.get("v", c.get("s", c.get("p"))), ty)
+        if k == "call":
+            t = r[2]
+            c = self.F.callee_of(t) or {}
+            targs = [self.F.ts(a) if isinstance(a, int) else str(a) for a in c.get("a", [])]
+            return ("call", c.get("p", "?"), [self.expr(a, depth + 1) for a in t["args"]], targs, c.get("resp", c.get("p", "?")))
+        if k == "agg":
+            rv = r[3]["r"]
+            name = rv.get("adt", rv.get("ak")) + (("::" + rv["vname"]) if "vname" in rv else "")
+            return ("agg", name, [self.expr(o, depth + 1) for o in rv["ops"]])
+        if k == "field":
+            base = r[1]
+            be = ("param", base[1]) if base[0] == "param" else (base[0],) if base[0] != "call" else \
+                ("call", (self.F.callee_of(base[2]) or {}).get("p", "?"), [self.expr(a, depth + 1) for a in base[2]["args"]], [], "")
+            return ("field", be, r[2])
+        if k == "other" and r[1] and r[1].get("k") == "=":
+            rv = r[1]["r"]
+            if rv["k"] == "bin":
+                return ("bin", rv["op"], self.expr(rv["a"], depth + 1), self.expr(rv["b"], depth + 1))
+            if rv["k"] == "un":
+                return ("un", rv["op"], self.expr(rv["a"], depth + 1))
+            if rv["k"] == "cast":
+                return ("cast", rv["ck"], self.F.ts(rv["to"]), self.expr(rv["o"], depth + 1))
+            if rv["k"] == "discr":
+                return ("discr", self.expr({"p": rv["p"]}, depth + 1))
+        if k == "multi":
+            return ("multi", r[1])
+        return ("?",)
+
     def promoted_value(self, idx):
         """`&K` promoted constants: return the constant dict of K when the promoted body is just
         `_1 = const K; _0 = &_1`."""
